@@ -72,7 +72,7 @@ def insertPadFill (p : PF) (d : Bytes) (i : Nat) (c : UInt8) (n : Nat) : Option 
 
 /-- `pf_insert_pad(me, i, c, n)` -/
 def insertPad (p : PF) (i : Nat) (c : UInt8) (n : Nat) : Option PF :=
-  if i ≥ min p.length p.cap then some { p with length := p.length + n } else do
+  if i > min p.length p.cap then some { p with length := p.length + n } else do
     let d ← insertPadMove p i n
     let d ← insertPadFill p d i c n
     pure { data := d, length := p.length + n }
